@@ -75,14 +75,14 @@ def replicate : Nat → Val → Val
   | 0, _ => nil
   | n + 1, v => cons v (replicate n v)
 /-- membership in a cons-chain (`unordered_set::emplace` finds an equal element) -/
-def mem (x : Val) : Val → Bool
-  | cons h t => h == x || mem x t
-  | _ => false
+def mem : Val → Val → Bool
+  | cons h t, x => h == x || mem t x
+  | _, _ => false
 /-- key lookup in a chain of pairs (`unordered_map::emplace` finds an equal key) -/
-def hasKey (k : Val) : Val → Bool
-  | cons (pair k' _) t => k' == k || hasKey k t
-  | cons _ t => hasKey k t
-  | _ => false
+def hasKey : Val → Val → Bool
+  | cons (pair k' _) t, k => k' == k || hasKey t k
+  | cons _ t, k => hasKey t k
+  | _, _ => false
 def toList : Val → List Val
   | cons h t => h :: t.toList
   | _ => []
